@@ -83,6 +83,8 @@ def main():
              "kind_free_text": "TLA+ spec of allocator/collector; TLC model checking, behaviour generation (-simulate), trace validation of the real gc.c"},
             {"name": "core", "path": "/verif/spec/Core.tla", "serves_properties": ["C03", "C05", "C06", "C09"],
              "kind_free_text": "definitional CESK machine in TLA+ run by TLC on generated programs; outputs of the real interpreter compared by TLC"},
+            {"name": "prim", "path": "/verif/spec/Prim.tla", "serves_properties": ["C01"],
+             "kind_free_text": "contract table of memory-indexing primitives; TLC-enumerated call space; session trace validation"},
             {"name": "sched", "path": "/verif/spec/Sched.tla", "serves_properties": ["C11"],
              "kind_free_text": "TLA+ transcription of the green-thread scheduler and SRFI 18 primitives; MC with liveness; trace validation under forced time slices"},
         ],
@@ -102,7 +104,7 @@ def main():
 
 
 NA = {}
-APPROVED = ["C11", "C03", "C05", "C06", "C09"]
+APPROVED = ["C11", "C03", "C05", "C06", "C09", "C01"]
 
 if __name__ == "__main__":
     main()
